@@ -8,15 +8,26 @@ The model `Model/Lattices/RotatedPlanar3DCode.lean` is a hand-written transcript
 implementation by the correspondence streams of `harness/lattices/rotatedplanar3dcode.py`.
 Property theorems only; the lemmas are in `Proofs/LatRotatedPlanar3DCode*.lean`.
 
-Not proved here: the rank clause (`rank H = n - k`) for all sizes.  It is covered per instance by
-the kernel-checked tables of `Properties/C01.lean`.
+Rank clause, for all sizes: all vertices, the horizontal faces of the bottom layer `z = 1` and all
+vertical faces are independent (`generators_independent`, via a triangular family of single-qubit
+probes, `Proofs/LatRotatedPlanar3DCodeRank.lean`) and there are exactly `n − k = n − 1` of them
+(`generators_count`: one layer of the rotated planar code has `Lx·Ly − 1` vertices and faces).
+`valid_code` puts everything together through the generic bridges `Proofs/OpComm.lean`
+(`symp (to_bsf a) (to_bsf b) = opAntiCount a b mod 2` ⇒ `CommPairL` of the assembled rows) and
+`Proofs/Lat2DRankBridge.lean` (operator-level independent sub-family of `n − k` generators ⇒
+`HasRank (2n) rowsH (n − k)`): the matrices that `stabilizer_matrix`, `logicals_x`, `logicals_z` of
+the generic code model (`Model/Code.lean`, C02) assemble from this lattice model form a valid
+`[[n, 1]]` stabilizer code (`ValidCodeL`: all four clauses of C01, rank included) for EVERY size of
+the family.
 -/
 import PanqecVerif.Proofs.LatRotatedPlanar3DCode5
 import PanqecVerif.Proofs.LatRotatedPlanar3DCode6
+import PanqecVerif.Proofs.LatRotatedPlanar3DCodeRankCount
+import PanqecVerif.Proofs.Lat2DRankBridge
 
 namespace Panqec.C01RotatedPlanar3DCode
 
-open Panqec Panqec.RotatedPlanar3DCode
+open Panqec Panqec.RotatedPlanar3DCode Panqec.Lat2D
 
 /-- Coordinates are distinct, qubit and stabilizer coordinates are disjoint, every stabilizer and
     logical operator is a dict (distinct keys) supported on qubits with letters X/Y/Z, and no
@@ -40,6 +51,40 @@ theorem n_formula (Lx Ly Lz : Nat) :
 
 /-- exactly one logical qubit -/
 theorem k_value (Lx Ly Lz : Nat) : (lattice Lx Ly Lz).toCodeData.k = 1 := rfl
+
+/-- rank clause, operator level: the generators at all vertices, at the horizontal faces of the
+    bottom layer `z = 1` and at all vertical faces are independent — every non-empty
+    duplicate-free sub-family `T` has a Pauli operator `d` on the qubits anticommuting with an odd
+    number of members of `T` (so no non-trivial product of them is trivial) — every
+    `Lx, Ly, Lz ≥ 1` -/
+theorem generators_independent (Lx Ly Lz : Nat) (hx : 1 ≤ Lx) (hy : 1 ≤ Ly) (hz : 1 ≤ Lz) :
+    IndepGenerators (lattice Lx Ly Lz) (selStabs Lx Ly Lz) :=
+  indep_sel Lx Ly Lz hx hy hz
+
+/-- the independent family is a sub-list of `get_stabilizer_coordinates` with `n − k` members -/
+theorem generators_count (Lx Ly Lz : Nat) (hx : 1 ≤ Lx) (hy : 1 ≤ Ly) (hz : 1 ≤ Lz) :
+    (selStabs Lx Ly Lz).Sublist (lattice Lx Ly Lz).stabs ∧
+    (selStabs Lx Ly Lz).length + (lattice Lx Ly Lz).toCodeData.k =
+      (lattice Lx Ly Lz).toCodeData.n :=
+  ⟨selStabs_sublist Lx Ly Lz hz, selStabs_count Lx Ly Lz hx hy hz⟩
+
+/-- THE C01 STATEMENT FOR ALL SIZES (`Lx, Ly, Lz ≥ 1`): `stabilizer_matrix`, `logicals_x`,
+    `logicals_z` of the generic code model, applied to this lattice model, return (no `KeyError`)
+    matrices that form a valid `[[n, 1]]` stabilizer code (`n` as in `n_formula`): generators
+    pairwise commute, logicals commute with the generators, `ω(X, Z) = 1`,
+    `ω(X, X) = ω(Z, Z) = 0`, and the generators have GF(2) rank `n − 1` -/
+theorem valid_code (Lx Ly Lz : Nat) (hx : 1 ≤ Lx) (hy : 1 ≤ Ly) (hz : 1 ≤ Lz) :
+    stabilizerMatrix (lattice Lx Ly Lz).toCodeData = some (lattice Lx Ly Lz).rowsH ∧
+    logicalsX (lattice Lx Ly Lz).toCodeData = some (lattice Lx Ly Lz).rowsX ∧
+    logicalsZ (lattice Lx Ly Lz).toCodeData = some (lattice Lx Ly Lz).rowsZ ∧
+    ValidCodeL
+      (Lx * Ly * Lz + ((Lx / 2) * (Ly / 2 + 1) + ((Lx - 1) / 2) * ((Ly + 1) / 2)) * (Lz - 1)) 1
+      (lattice Lx Ly Lz).rowsH (lattice Lx Ly Lz).rowsX (lattice Lx Ly Lz).rowsZ := by
+  have h := validCode_of_lattice (lattice Lx Ly Lz) (wf Lx Ly Lz hx hy hz)
+    (commPair Lx Ly Lz hx hy hz) (selStabs Lx Ly Lz) (generators_count Lx Ly Lz hx hy hz).1
+    (generators_independent Lx Ly Lz hx hy hz) (generators_count Lx Ly Lz hx hy hz).2
+  rw [n_formula, k_value] at h
+  exact h
 
 /-- `qubit_axis` of a qubit: `z` for the vertical qubits (even z); for the horizontal ones `x` when
     `(x + y) % 4 = 2` and `y` otherwise; every other location is a `ValueError`. -/
@@ -87,6 +132,14 @@ example : getStab 2 2 2 [2, 0, 1] = [([1, 1, 1], Pauli.Z), ([3, 1, 1], Pauli.Z),
 example : getStab 2 2 2 [1, 1, 2] = [([2, 0, 2], Pauli.X), ([1, 1, 1], Pauli.X), ([1, 1, 3], Pauli.X)] := by
   decide
 example : (lattice 3 2 4).CommPair := commPair 3 2 4 (by decide) (by decide) (by decide)
+example : IndepGenerators (lattice 2 3 2) (selStabs 2 3 2) :=
+  generators_independent 2 3 2 (by decide) (by decide) (by decide)
+example : (selStabs 2 3 2).length = 13 := by decide
+example : ValidCodeL 14 1 (lattice 2 3 2).rowsH (lattice 2 3 2).rowsX (lattice 2 3 2).rowsZ :=
+  (valid_code 2 3 2 (by decide) (by decide) (by decide)).2.2.2
+/-- 16 generators, rank 13: three relations among the faces -/
+example : HasRank (2 * 14) (lattice 2 3 2).rowsH 13 :=
+  (valid_code 2 3 2 (by decide) (by decide) (by decide)).2.2.2.rank
 example : getDeformation 2 2 2 "XZZX" "z" [2, 0, 2] = some PauliMap.swapXZ := by decide
 example : getDeformation 2 2 2 "XZZX" "x" [2, 0, 2] = some PauliMap.id := by decide
 example : getDeformation 2 2 2 "XY" "x" [2, 0, 2] = none := by decide
